@@ -25,6 +25,10 @@ func findBurnState(states *[]types.State) int {
 
 func findAccountState(states *[]types.State, account *types.Account) int {
 	for pos, state := range *states {
+		// states are stored under type and id (GetStateKey): accounts of different types may share an id
+		if state.Account.Type != account.Type {
+			continue
+		}
 		if state.Account.Id == account.Id && state.Account.Id != "" && &state.Account.Id != nil {
 			return pos
 		} else if state.Account.Id == account.Id && state.Account.Id == "" {
